@@ -718,7 +718,7 @@ func init() {
 		PostCheck: c11Strace,
 		Cases: func(tier string) int {
 			if tier == "thorough" {
-				return 150000
+				return 1200000
 			}
 			return 48000
 		},
